@@ -63,6 +63,11 @@ fn affine(m: &MDesc, n: u64, class: usize, seed: u64, r: &mut Report) {
 	let case = |a: f64, b: f64, i: usize, got: f64, want: f64| json!({"kind": m.name, "len": n, "a": a, "b": b, "step": i, "MA(a*x+b)": fj(got), "a*MA(x)+b": fj(want), "stream_class": class, "seed": seed, "first_inputs": fjs(&xs[..xs.len().min(8)])});
 	// exact: negation and powers of two
 	for a in [-1.0, 2.0, 0.5, -4.0, 1024.0, 2f64.powi(-60), -(2f64.powi(-58)), 2f64.powi(40)] {
+		// keep clear of the ValueType's under/overflow range, where scaling does not commute with rounding
+		let minx = xs.iter().filter(|x| **x != 0.0).fold(f64::INFINITY, |m, x| m.min(x.abs()));
+		if minx.is_finite() && (a.abs() * minx < V::MIN_POSITIVE as f64 * 1e12 || a.abs() * mag > V::MAX as f64 / 1e12 || minx < V::MIN_POSITIVE as f64 * 1e12) {
+			continue;
+		}
 		let ys: Vec<f64> = xs.iter().map(|x| a * x).collect();
 		let Some(got) = run_v(m, &par, &ys) else { continue };
 		r.eval(len as u64);
@@ -127,7 +132,7 @@ fn affine(m: &MDesc, n: u64, class: usize, seed: u64, r: &mut Report) {
 	}
 }
 
-fn constant(m: &MDesc, n: u64, r: &mut Report) {
+pub fn constant(m: &MDesc, n: u64, r: &mut Report) {
 	let par = Par::L(n as P);
 	for v in [1.0, 0.1, -3.7, 1.0 / 3.0, 12345.678, 1e-3, 1e6, 0.0, -0.0] {
 		let v = gen::q(v);
@@ -250,7 +255,10 @@ fn impulse_profile(kind: &str, n: usize, len: usize) -> Vec<f64> {
 		"DMA" => geo(a, 2),
 		"TMA" => geo(a, 3),
 		"DEMA" => geo(a, 1).iter().zip(geo(a, 2).iter()).map(|(e, ee)| 2.0 * e - ee).collect(),
-		"TEMA" => (0..len).map(|i| 3.0 * geo(a, 1)[i] - 3.0 * geo(a, 2)[i] + geo(a, 3)[i]).collect(),
+		"TEMA" => {
+			let (g1, g2, g3) = (geo(a, 1), geo(a, 2), geo(a, 3));
+			(0..len).map(|i| 3.0 * g1[i] - 3.0 * g2[i] + g3[i]).collect()
+		}
 		"RMA" | "WSMA" => geo(1.0 / n as f64, 1),
 		"HMA" => {
 			let w1 = pad(norm(wma_weights(n / 2)));
@@ -263,7 +271,7 @@ fn impulse_profile(kind: &str, n: usize, len: usize) -> Vec<f64> {
 	}
 }
 
-fn impulse(m: &MDesc, n: u64, r: &mut Report) {
+pub fn impulse(m: &MDesc, n: u64, r: &mut Report) {
 	let par = Par::L(n as P);
 	let len = 3 * n as usize + 20;
 	let lead = 3usize;
